@@ -99,12 +99,16 @@ func (i *imports) Imports() []Import {
 	return imps
 }
 
+// decorateImport replaces a registered alias by its path. An alias stands for whole path segments only:
+// "foo" applies to "foo" and "foo/bar", never to "foobar/baz".
 func (i *imports) decorateImport(imp string) string {
-	for shortcut, path := range i.prefixes {
-		if strings.Index(imp, shortcut) == 0 {
-			return strings.Replace(imp, shortcut, path, 1)
-		}
+	segment, rest, hasRest := strings.Cut(imp, "/")
+	path, ok := i.prefixes[segment]
+	if !ok {
+		return imp
 	}
-
-	return imp
+	if hasRest {
+		return path + "/" + rest
+	}
+	return path
 }
